@@ -15,7 +15,7 @@ def build(tier, seed):
     def k():
         mod = rd('codegen/mod.rs')
         ci = extract(mod, r'^impl CodeGenerator for CompInfo \{', what='impl CodeGenerator for CompInfo')
-        m = [x.start() for x in re.finditer(r'if ctx\.options\(\)\.layout_tests && !self\.is_forward_declaration\(\) \{', ci)]
+        m = [x.start() for x in re.finditer(r'if\s+ctx\s*\.options\(\)\s*\.layout_tests\b[^{;]*\{', ci)]
         if len(m) != 1:
             raise SliceError('CompInfo::codegen: layout_tests statement not found exactly once')
         ob = ci.index('{', m[0])
